@@ -19,7 +19,13 @@ def make_kernel(ch, knobs=None, **kw):
     kn = dict(knobs or {})
     kn.update(kw)
     seams.install()
-    return kernel.Kernel(ch, p_switch=kn.get("p_switch", 0.05), cost_ns=kn.get("cost_ns", 1000),
+    pct = ()
+    if kn.get("policy") == "prio":
+        d = int(kn.get("pct_d", 2))
+        span = int(kn.get("pct_span", 4000))
+        pct = [ch.draw("pct", i, 0, lambda r: r.randrange(1, span)) for i in range(d)]
+    return kernel.Kernel(ch, policy=kn.get("policy", "walk"), pct_points=[x for x in pct if x],
+                         p_switch=kn.get("p_switch", 0.05), cost_ns=kn.get("cost_ns", 1000),
                          clock_step_ns=kn.get("clock_step_ns", 2000), stall_p=kn.get("stall_p", 0.0),
                          stall_ns=tuple(kn.get("stall_ns", (50_000_000, 5_000_000_000))),
                          ident_reuse_p=kn.get("ident_reuse_p", 0.0), max_steps=kn.get("max_steps", 400000),
@@ -76,3 +82,13 @@ def wait_until(k, pred, max_s=300.0):
 def wait_delivery(k, w, max_s=300.0):
     """Wait until every snapshot handed to PushService has been attempted at the service (or max_s)."""
     return wait_until(k, lambda: len(w.service.send_attempts) >= len(w.pushed), max_s)
+
+
+def race_knobs(r, **over):
+    """Knobs for the race-oriented checks: random walk or PCT-style priorities with d change points."""
+    kn = draw_knobs(r, **over)
+    if r.random() < 0.35:
+        kn["policy"] = "prio"
+        kn["pct_d"] = r.randrange(0, 5)
+        kn["pct_span"] = r.choice((300, 1500, 6000))
+    return kn
